@@ -580,7 +580,9 @@ func (e *Env) equal(a, b Val) (string, error) {
 		return "", fmt.Errorf("equality of %s and %s", a.S, b.S)
 	}
 	if a.S == SF64 {
-		return sx("f.eq", a.T, b.T), nil
+		// in specifications == on floats is identity of the value (NaN == NaN, -0 != +0), which is what "the result is this value"
+		// means; Go's IEEE comparison (f.eq) is what the code's == compiles to
+		return eq(a.T, b.T), nil
 	}
 	if a.S == "" {
 		t := e.g.equalTerm(a, b)
